@@ -582,6 +582,19 @@ func vfRunC10Err(ctx *vfCtx, c vfCaseC10Err) {
 		case "StatVFS":
 			target = "StatVFS:StatVFS"
 			_, got = cl.StatVFS("/")
+		// the handler call succeeds, the error comes from the lister it returned (seed F05)
+		case "Stat@ListAt":
+			h.listAtErr = func(p string) error { return inj }
+			_, got = cl.Stat("/f")
+		case "Lstat@ListAt":
+			h.listAtErr = func(p string) error { return inj }
+			_, got = cl.Lstat("/l")
+		case "ReadLink@ListAt":
+			h.listAtErr = func(p string) error { return inj }
+			_, got = cl.ReadLink("/l")
+		case "ReadDir@ListAt":
+			h.listAtErr = func(p string) error { return inj }
+			_, got = cl.ReadDir("/d")
 		}
 		return "", nil
 	})
@@ -591,12 +604,18 @@ func vfRunC10Err(ctx *vfCtx, c vfCaseC10Err) {
 	if r.Panic != nil {
 		ctx.Failf("panic/"+vfPanicSite([]byte(r.Stack)), "%v\n%s", r.Panic, vfTrimStack([]byte(r.Stack)))
 	}
+	if strings.HasSuffix(c.Op, "@ListAt") && (wantCode == vfFxEOF || wantCode == vfFxOK) {
+		// (0, io.EOF) from a lister is its way of saying "no entries", and an OK status is no error at all
+		ctx.Class("skipped-listat-eof")
+		wantCode = -9
+	}
 	desc := fmt.Sprintf("%s with the handler returning %T %v", c.Op, inj, inj)
 	key := "C10/error-kind/" + c.Err
 	if c.Wrap != "" {
 		key += "/" + c.Wrap
 	}
 	switch wantCode {
+	case -9:
 	case vfFxOK:
 		if got != nil {
 			ctx.Failf(key, "%s: the client sees %v, want success (status OK as given)", desc, got)
@@ -633,7 +652,8 @@ func vfRunC10Err(ctx *vfCtx, c vfCaseC10Err) {
 	vfCheckNoLeak(ctx, "C10/leak", baseline)
 }
 
-var vfC10ErrOps = []string{"Mkdir", "Rename", "PosixRename", "RemoveDirectory", "Symlink", "Chmod", "Open", "OpenWrite", "Create", "Stat", "Lstat", "ReadLink", "ReadDir", "StatVFS"}
+var vfC10ErrOps = []string{"Mkdir", "Rename", "PosixRename", "RemoveDirectory", "Symlink", "Chmod", "Open", "OpenWrite", "Create", "Stat", "Lstat", "ReadLink", "ReadDir", "StatVFS",
+	"Stat@ListAt", "Lstat@ListAt", "ReadLink@ListAt", "ReadDir@ListAt"}
 
 // ---- (D): attributes as given -----------------------------------------------------------------
 //
